@@ -262,6 +262,11 @@ Section load.
     | Some args => if c_init_ok k args then Ok (VObj (c_name k) args) else Err ERecognition
     end.
 
+  (* pathlib.Path(text) normalises its argument ('' -> '.', 'a//b/' -> 'a/b'); str() of the result is looked up in the
+     oracle (entry under the !Path tag, present when it differs from the text) *)
+  Definition path_of (v : ustring) : ustring :=
+    match olookup o tag_path v with Ok (VStr s) => s | _ => v end.
+
   Fixpoint construct (fuel : nat) (n : node) {struct fuel} : result value :=
     match fuel with
     | O => Err EFuel
@@ -291,7 +296,7 @@ Section load.
             end
         | None =>
             if ueqb tg tag_path then
-              match n with Scalar _ v _ => Ok (VPath v) | _ => Err ERecognition end
+              match n with Scalar _ v _ => Ok (VPath (path_of v)) | _ => Err ERecognition end
             else
               match n with
               | Scalar t v _ =>
@@ -376,7 +381,7 @@ Section load.
             end
         | None =>
             if ueqb tg tag_path then
-              lret (match n with Scalar _ v _ => Ok (VPath v) | _ => Err ERecognition end)
+              lret (match n with Scalar _ v _ => Ok (VPath (path_of v)) | _ => Err ERecognition end)
             else
               match n with
               | Scalar t v _ =>
